@@ -18,8 +18,9 @@ RULE = ('random LALR grammars over 8 terminals (each token carries a unique numb
         '<= 9 parsers, forks mid-input and right after tokens that triggered reductions, unexpected tokens fed and '
         'skipped); stream lexer-forks: forks of parse_interactive(text) stepped through their own lexer copies and '
         'finished by resume_parse(); stream on-error: Lark.parse(text, on_error=skip) with injected unexpected tokens; '
-        'non-trivial = distinct case with >= 2 parsers whose histories differ, at least one in-place list extension or '
-        '?-expansion, and at least one result')
+        'stream shallow-model: shallow-copy runs compared with the model only; failing fork trees are shrunk by greedy '
+        'removal of operations; non-trivial = distinct case with >= 2 parsers whose histories differ, at least one '
+        'in-place list extension or ?-expansion, and at least one result')
 TRUSTED_BASE = ['export of lark\'s parse table and of the callback chain shape (to_include / append_none / '
                 'ExpandSingleChild / Tree name) read from the live parser objects; unknown wrapper classes are rejected',
                 'control skeleton of ParserState.copy, InteractiveParser.copy/as_immutable/accepts, '
@@ -850,11 +851,16 @@ class TreeRun:
 
 
 # replay of a recorded script on the implementation -----------------------------------------------------
-def replay_script(g, pp, mp, lexer, script, meta_mode, text=None):
+def replay_script(g, pp, mp, lexer, script, meta_mode, text=None, oracle=True):
     p = build(g, pp, mp, lexer)
     ex = Export(p)
     tr = TreeRun(None, p, ex, lexer, True, meta_mode, text, lexer_shared=False)
+    tr.oracle = oracle
     for st in script:
+        if st[1] >= len(tr.forks) or tr.forks[st[1]].py is None or \
+                (st[0] in ('feed', 'step', 'resume') and tr.forks[st[1]].done) or \
+                (st[0] == 'mut' and not tr.forks[st[1]].imm) or (st[0] == 'step' and tr.forks[st[1]].imm):
+            continue
         if tr.fail:
             break
         if st[0] == 'feed':
@@ -1002,6 +1008,57 @@ def new_parser(rng, force_basic=False):
     raise RuntimeError('no LALR grammar in 50 attempts')
 
 
+def drop_op(script, k):
+    """script without operation k and without everything that depended on a parser it created"""
+    imm = [False]
+    dead = set()
+    out = []
+    for idx, st in enumerate(script):
+        kind, i = st[0], st[1]
+        creates = None
+        if kind == 'feed':
+            if imm[i]:
+                creates = True
+        elif kind in ('copy', 'copycopy', 'copydeep', 'shallow'):
+            creates = imm[i]
+        elif kind == 'imm':
+            creates = True
+        elif kind == 'mut':
+            creates = False
+        skip = (idx == k) or (i in dead)
+        if creates is not None:
+            if skip:
+                dead.add(len(imm))
+            imm.append(creates)
+        if not skip:
+            st2 = list(st)
+            st2[1] = i - len([d for d in dead if d < i])
+            out.append(st2)
+    return out
+
+
+def shrink(g, pp, mp, lexer, tr, kind):
+    """greedy removal of operations while the run still fails (any failure of the property's oracle)"""
+    script = [list(x) for x in tr.script]
+    text = tr.text
+    budget = 120
+    k = len(script) - 1
+    while k >= 0 and budget > 0:
+        cand = drop_op(script, k)
+        budget -= 1
+        try:
+            t2 = replay_script(g, pp, mp, lexer, cand, tr.mm, text, oracle=(kind != 'shallow'))
+            bad = t2.fail is not None
+        except RuntimeError:
+            bad = False
+        except Exception:  # noqa
+            bad = True
+        if bad:
+            script = cand
+        k = min(k - 1, len(script) - 1)
+    return script
+
+
 def safely(tr, fn, *a):
     """an exception escaping from the implementation during a run is a failure of that run (a harness
     self-check raises RuntimeError, which is not swallowed)"""
@@ -1014,9 +1071,19 @@ def safely(tr, fn, *a):
             tr.fail = ('exception', '%s: %s' % (type(e).__name__, str(e)[:200]))
 
 
+N_SHRUNK = [0]
+
+
 def witness(g, pp, mp, lexer, tr, kind):
+    script = tr.script
+    if kind in ('tree', 'lexer') and N_SHRUNK[0] < 12:
+        N_SHRUNK[0] += 1
+        try:
+            script = shrink(g, pp, mp, lexer, tr, kind)
+        except Exception:  # noqa
+            script = tr.script
     return {'kind': kind, 'grammar': g, 'propagate_positions': pp, 'maybe_placeholders': mp, 'lexer': lexer,
-            'script': tr.script, 'text': tr.text, 'meta_mode': tr.mm}
+            'script': script, 'text': tr.text, 'meta_mode': tr.mm, 'ops_before_shrinking': len(tr.script)}
 
 
 def correspond(ctx):
@@ -1032,7 +1099,7 @@ def correspond(ctx):
             ctx.violation('regression:' + name, w, True, what)
     defect = False
     lexer_shared = False
-    ngram = ctx.scale(45, 400) * (3 if ctx.widen else 1)
+    ngram = ctx.scale(36, 300) * (3 if ctx.widen else 1)
     groups = []      # (g, pp, mp, lexer, ex, [(kind, run)])
     mm = 2
 
